@@ -31,9 +31,11 @@ number of batches may be committed** (the gap left open by `C06_mergeOut_stable`
 
 * `HOpOK`: keys and values shorter than 2^31 bytes (implied by `AOpOK`'s 2^27); batch ids positive and
   below 2^63; `Merge` visits each file once (`order.Nodup`); restart configurations are `Valid`.
-* `(idsOf h).Nodup`: the ids of different batches of the history are pairwise distinct (Go draws
-  them from a snowflake generator).  Needed: a sealing record must not seal records parked under the
-  same id by an earlier, abandoned flush — see `reusedIdDemo` below for what the model does otherwise.
+  NO distinctness of batch ids is assumed: `NewBatch` builds a new snowflake node per batch, so two
+  batches created within one millisecond carry the SAME id, and the theorem covers that.  (In a
+  crash-free history every batch in the log is sealed before anything else is written — the
+  invariant component `NoPend` — so every id is fresh in the sense `C05.Pre.fresh` needs.  The
+  distinctness hypothesis belongs to the crash properties C03 / C04 only.)
 * `WF`: while a batch is live (between `NewBatch` and `Commit`) only that batch's own calls occur.
   In Go `NewBatch` takes `db.mu` and `Commit` releases it: every other call (`Put`, `Get`, `Merge`,
   `Close`, a second `NewBatch`, …) BLOCKS until `Commit`; and a batch object that is dropped
@@ -161,16 +163,6 @@ def HOpOK : HOp → Prop
   | .merge order => order.Nodup
   | .restart cfg => cfg.Valid
 
-/-- the batch ids a call introduces -/
-def idsOfOp : HOp → List Nat
-  | .a (.bnew _ id) => [id]
-  | _ => []
-
-/-- the batch ids of a history, in order -/
-def idsOf : List HOp → List Nat
-  | [] => []
-  | op :: ops => idsOfOp op ++ idsOf ops
-
 /-- the calls a live batch's owner can make while every other caller is blocked -/
 def batchCall : HOp → Bool
   | .a (.bput _ _) => true
@@ -207,11 +199,11 @@ def isLive : Slot → Bool
   | .live _ => true
   | _ => false
 
-def HInv (dir : String) (s : St) (σ : SpecSt) (ids : List Nat) : Prop :=
+def HInv (dir : String) (s : St) (σ : SpecSt) : Prop :=
   match σ.slot with
-  | .none => HInvQ dir s σ.m false ids
-  | .dead => HInvQ dir s σ.m true ids
-  | .live issued => HInvL dir s σ.m issued ids
+  | .none => HInvQ dir s σ.m false
+  | .dead => HInvQ dir s σ.m true
+  | .live issued => HInvL dir s σ.m issued
 
 /-- the model state and the specification state denote the same mapping: through the index when no
     batch is live, through the batch's layered view when one is -/
@@ -220,8 +212,8 @@ def Agree (s : St) (σ : SpecSt) : Prop :=
   | .live issued => ∃ db b, s.db = some db ∧ db.batch = some b ∧ ∀ k, bview s db b k = foldIssued σ.m issued k
   | _ => ∀ k, absOf s k = σ.m k
 
-theorem HInv_q (dir : String) (s : St) (m : Spec) (dead : Bool) (ids : List Nat) :
-    HInv dir s ⟨m, qslot dead⟩ ids = HInvQ dir s m dead ids := by
+theorem HInv_q (dir : String) (s : St) (m : Spec) (dead : Bool) :
+    HInv dir s ⟨m, qslot dead⟩ = HInvQ dir s m dead := by
   cases dead <;> rfl
 
 theorem specA_q (m : Spec) (dead : Bool) (op : AOp) : specA ⟨m, qslot dead⟩ op = specQuiet m dead op := by
@@ -244,7 +236,7 @@ theorem Holds_append : ∀ {es es' : List Expect} {rs rs' : List Res}, Holds es 
     | nil => exact absurd h (by simp [Holds])
     | cons r rs => exact ⟨h.1, ih h.2 h'⟩
 
-theorem HInvQ_agree {dir : String} {s : St} {m : Spec} {dead : Bool} {ids : List Nat} (h : HInvQ dir s m dead ids) :
+theorem HInvQ_agree {dir : String} {s : St} {m : Spec} {dead : Bool} (h : HInvQ dir s m dead) :
     ∀ k, absOf s k = m k := by
   intro k
   obtain ⟨db, hs, _⟩ := h.2
@@ -254,7 +246,7 @@ theorem HInvQ_agree {dir : String} {s : St} {m : Spec} {dead : Bool} {ids : List
   rw [C01.absOf_eq hs, ← habs k]
   rfl
 
-theorem HInv_agree {dir : String} {s : St} {σ : SpecSt} {ids : List Nat} (h : HInv dir s σ ids) : Agree s σ := by
+theorem HInv_agree {dir : String} {s : St} {σ : SpecSt} (h : HInv dir s σ) : Agree s σ := by
   obtain ⟨m, sl⟩ := σ
   cases sl with
   | none => exact HInvQ_agree h
@@ -266,11 +258,10 @@ theorem HInv_agree {dir : String} {s : St} {σ : SpecSt} {ids : List Nat} (h : H
 /-! ## one call -/
 
 /-- one call while no batch is live -/
-theorem hstepQ {dir : String} {s : St} {m : Spec} {dead : Bool} {ids : List Nat} (op : HOp)
-    (h : HInvQ dir s m dead (idsOfOp op ++ ids)) (hop : HOpOK op) (hni : ∀ id ∈ idsOfOp op, id ∉ ids)
-    (hst : StepOK dir s op) :
+theorem hstepQ {dir : String} {s : St} {m : Spec} {dead : Bool} (op : HOp)
+    (h : HInvQ dir s m dead) (hop : HOpOK op) (hst : StepOK dir s op) :
     Holds (specStep ⟨m, qslot dead⟩ op).2 (hstep dir s op).2 ∧
-    HInv dir (hstep dir s op).1 (specStep ⟨m, qslot dead⟩ op).1 ids := by
+    HInv dir (hstep dir s op).1 (specStep ⟨m, qslot dead⟩ op).1 := by
   cases op with
   | a op =>
     simp only [specStep, specA_q, hstep]
@@ -284,49 +275,49 @@ theorem hstepQ {dir : String} {s : St} {m : Spec} {dead : Bool} {ids : List Nat}
     | get k =>
       obtain ⟨h1, h2⟩ := getQ h k
       refine ⟨Holds_single h1, ?_⟩
-      show HInv dir (get s k).1 ⟨m, qslot dead⟩ ids
+      show HInv dir (get s k).1 ⟨m, qslot dead⟩
       rw [h2, HInv_q]; exact h
     | sync =>
       obtain ⟨h1, h2⟩ := syncQ h
       exact ⟨Holds_single h1, by rw [show (specQuiet m dead .sync).1 = ⟨m, qslot dead⟩ from rfl, HInv_q]; exact h2⟩
     | bnew sy id =>
-      obtain ⟨h1, h2⟩ := bnewQ h sy hop.2 (hni id (by simp [idsOfOp]))
+      obtain ⟨h1, h2⟩ := bnewQ h sy id hop.1 hop.2
       exact ⟨Holds_single h1, h2⟩
     | bput k v =>
       have e := bputQ h k v
       refine ⟨Holds_single (by show (bput s k v).2 = _; rw [e]; rfl), ?_⟩
-      show HInv dir (bput s k v).1 ⟨m, qslot dead⟩ ids
+      show HInv dir (bput s k v).1 ⟨m, qslot dead⟩
       rw [e, HInv_q]; exact h
     | bdel k =>
       have e := bdelQ h k
       refine ⟨Holds_single (by show (bdel s k).2 = _; rw [e]; rfl), ?_⟩
-      show HInv dir (bdel s k).1 ⟨m, qslot dead⟩ ids
+      show HInv dir (bdel s k).1 ⟨m, qslot dead⟩
       rw [e, HInv_q]; exact h
     | bget k =>
       have e := bgetQ h k
       refine ⟨Holds_single (by show (bget s k).2 = _; rw [e]; rfl), ?_⟩
-      show HInv dir (bget s k).1 ⟨m, qslot dead⟩ ids
+      show HInv dir (bget s k).1 ⟨m, qslot dead⟩
       rw [e, HInv_q]; exact h
     | bcommit =>
       have e := bcommitQ h
       refine ⟨Holds_single (by show (bcommit s).2 = _; rw [e]; rfl), ?_⟩
-      show HInv dir (bcommit s).1 ⟨m, qslot dead⟩ ids
+      show HInv dir (bcommit s).1 ⟨m, qslot dead⟩
       rw [e, HInv_q]; exact h
     | bdrop =>
       obtain ⟨h1, h2⟩ := bdropQ h
       exact ⟨Holds_single h1, h2⟩
   | merge order =>
     obtain ⟨h1, h2⟩ := mergeQ h order hop hst
-    exact ⟨Holds_single h1, by show HInv dir (merge s order).1 ⟨m, qslot dead⟩ ids; rw [HInv_q]; exact h2⟩
+    exact ⟨Holds_single h1, by show HInv dir (merge s order).1 ⟨m, qslot dead⟩; rw [HInv_q]; exact h2⟩
   | restart cfg =>
     obtain ⟨h1, h2, h3⟩ := restartQ h cfg hop hst
     exact ⟨⟨h1, h2, trivial⟩, h3⟩
 
 /-- one call of the live batch -/
-theorem hstepL {dir : String} {s : St} {m : Spec} {issued : List (ByteArray × Option ByteArray)} {ids : List Nat}
-    (op : HOp) (h : HInvL dir s m issued ids) (hop : HOpOK op) (hb : batchCall op = true) :
+theorem hstepL {dir : String} {s : St} {m : Spec} {issued : List (ByteArray × Option ByteArray)}
+    (op : HOp) (h : HInvL dir s m issued) (hop : HOpOK op) (hb : batchCall op = true) :
     Holds (specStep ⟨m, .live issued⟩ op).2 (hstep dir s op).2 ∧
-    HInv dir (hstep dir s op).1 (specStep ⟨m, .live issued⟩ op).1 ids := by
+    HInv dir (hstep dir s op).1 (specStep ⟨m, .live issued⟩ op).1 := by
   cases op with
   | merge order => simp [batchCall] at hb
   | restart cfg => simp [batchCall] at hb
@@ -341,7 +332,7 @@ theorem hstepL {dir : String} {s : St} {m : Spec} {issued : List (ByteArray × O
     | bget k =>
       obtain ⟨h1, h2⟩ := bgetL h k
       refine ⟨Holds_single h1, ?_⟩
-      show HInv dir (bget s k).1 ⟨m, .live issued⟩ ids
+      show HInv dir (bget s k).1 ⟨m, .live issued⟩
       rw [h2]; exact h
     | bcommit =>
       obtain ⟨h1, h2⟩ := bcommitL h
@@ -353,25 +344,16 @@ theorem hstepL {dir : String} {s : St} {m : Spec} {issued : List (ByteArray × O
     | bnew sy id => simp [batchCall] at hb
     | bdrop => simp [batchCall] at hb
 
-theorem idsOfOp_batchCall {op : HOp} (h : batchCall op = true) : idsOfOp op = [] := by
-  cases op with
-  | merge order => rfl
-  | restart cfg => rfl
-  | a op => cases op <;> first | rfl | simp [batchCall] at h
-
 /-- **one call**, any slot -/
-theorem hstep_ok {dir : String} {s : St} {σ : SpecSt} {ids : List Nat} (op : HOp)
-    (h : HInv dir s σ (idsOfOp op ++ ids)) (hop : HOpOK op) (hni : ∀ id ∈ idsOfOp op, id ∉ ids)
+theorem hstep_ok {dir : String} {s : St} {σ : SpecSt} (op : HOp)
+    (h : HInv dir s σ) (hop : HOpOK op)
     (hwf : isLive σ.slot = true → batchCall op = true) (hst : StepOK dir s op) :
-    Holds (specStep σ op).2 (hstep dir s op).2 ∧ HInv dir (hstep dir s op).1 (specStep σ op).1 ids := by
+    Holds (specStep σ op).2 (hstep dir s op).2 ∧ HInv dir (hstep dir s op).1 (specStep σ op).1 := by
   obtain ⟨m, sl⟩ := σ
   cases sl with
-  | none => exact hstepQ (dead := false) op h hop hni hst
-  | dead => exact hstepQ (dead := true) op h hop hni hst
-  | live issued =>
-    have hb := hwf rfl
-    rw [idsOfOp_batchCall hb] at h
-    exact hstepL op h hop hb
+  | none => exact hstepQ (dead := false) op h hop hst
+  | dead => exact hstepQ (dead := true) op h hop hst
+  | live issued => exact hstepL op h hop (hwf rfl)
 
 theorem isLive_step (σ : SpecSt) (op : HOp) (hwf : isLive σ.slot = true → batchCall op = true) :
     isLive (specStep σ op).1.slot = liveAfter (isLive σ.slot) op := by
@@ -397,31 +379,28 @@ theorem isLive_step (σ : SpecSt) (op : HOp) (hwf : isLive σ.slot = true → ba
 /-! ## whole histories -/
 
 /-- **the refinement, from any state of the invariant** -/
-theorem hrun_ok (dir : String) : ∀ (h : List HOp) {s : St} {σ : SpecSt}, HInv dir s σ (idsOf h) →
-    (∀ op ∈ h, HOpOK op) → (idsOf h).Nodup → WF (isLive σ.slot) h = true → RunOK dir s h →
-    Holds (specRun σ h).2 (hrun dir s h).2 ∧ HInv dir (hrun dir s h).1 (specRun σ h).1 [] := by
+theorem hrun_ok (dir : String) : ∀ (h : List HOp) {s : St} {σ : SpecSt}, HInv dir s σ →
+    (∀ op ∈ h, HOpOK op) → WF (isLive σ.slot) h = true → RunOK dir s h →
+    Holds (specRun σ h).2 (hrun dir s h).2 ∧ HInv dir (hrun dir s h).1 (specRun σ h).1 := by
   intro h
   induction h with
-  | nil => intro s σ hi _ _ _ _; exact ⟨trivial, hi⟩
+  | nil => intro s σ hi _ _ _; exact ⟨trivial, hi⟩
   | cons op ops ih =>
-    intro s σ hi hok hnd hwf hro
+    intro s σ hi hok hwf hro
     simp only [WF, Bool.and_eq_true, Bool.or_eq_true, Bool.not_eq_true'] at hwf
     have hall : isLive σ.slot = true → batchCall op = true := by
       intro hl
       rcases hwf.1 with h1 | h1
       · rw [hl] at h1; cases h1
       · exact h1
-    have hnd' : (idsOfOp op ++ idsOf ops).Nodup := hnd
-    rw [List.nodup_append] at hnd'
-    obtain ⟨_, hnd2, hdisj⟩ := hnd'
-    obtain ⟨h1, h2⟩ := hstep_ok op hi (hok op (by simp)) (fun id hid hid' => hdisj id hid id hid' rfl) hall hro.1
-    obtain ⟨i1, i2⟩ := ih h2 (fun o ho => hok o (by simp [ho])) hnd2
+    obtain ⟨h1, h2⟩ := hstep_ok op hi (hok op (by simp)) hall hro.1
+    obtain ⟨i1, i2⟩ := ih h2 (fun o ho => hok o (by simp [ho]))
       (by rw [isLive_step σ op hall]; exact hwf.2) hro.2
     exact ⟨Holds_append h1 i1, i2⟩
 
 /-- **C01 for histories (refinement).**  For every directory name, every valid initial
     configuration and every history `h` of plain calls, batch calls, `Merge`s and restarts that
-    satisfies the side conditions (`HOpOK`, distinct batch ids, `WF`, `RunOK` — see the file header):
+    satisfies the side conditions (`HOpOK`, `WF`, `RunOK` — see the file header):
 
     * `Open` of the fresh directory succeeds;
     * running `h` on the model yields, call by call, the results the specification prescribes
@@ -437,30 +416,13 @@ theorem hrun_ok (dir : String) : ∀ (h : List HOp) {s : St} {σ : SpecSt}, HInv
     successful `Merge`, batches committed after it, and the restart that adopts it — changes what
     any key maps to. -/
 theorem C01_refines_history (dir : String) (cfg : Cfg) (hcfg : cfg.Valid) (h : List HOp)
-    (hok : ∀ op ∈ h, HOpOK op) (hids : (idsOf h).Nodup) (hwf : WF false h = true)
+    (hok : ∀ op ∈ h, HOpOK op) (hwf : WF false h = true)
     (hrunok : RunOK dir (openDB St.init dir cfg).1 h) :
     (openDB St.init dir cfg).2 = .ok ∧
     Holds (specRun ⟨specEmpty, .none⟩ h).2 (hrun dir (openDB St.init dir cfg).1 h).2 ∧
     Agree (hrun dir (openDB St.init dir cfg).1 h).1 (specRun ⟨specEmpty, .none⟩ h).1 := by
-  have hpos : ∀ id ∈ idsOf h, 0 < id := by
-    intro id hid
-    clear hids hwf hrunok
-    induction h with
-    | nil => simp [idsOf] at hid
-    | cons op ops ih =>
-      simp only [idsOf, List.mem_append] at hid
-      rcases hid with hid | hid
-      · have := hok op (by simp)
-        cases op with
-        | merge order => simp [idsOfOp] at hid
-        | restart c => simp [idsOfOp] at hid
-        | a op =>
-          cases op <;> simp only [idsOfOp, List.mem_singleton, List.not_mem_nil] at hid
-          subst hid
-          exact this.1
-      · exact ih (fun o ho => hok o (by simp [ho])) hid
-  obtain ⟨h0, hi0⟩ := HInv0_fresh dir cfg hcfg (idsOf h) hpos
-  obtain ⟨h1, h2⟩ := hrun_ok dir h (σ := ⟨specEmpty, .none⟩) hi0.toQ hok hids hwf hrunok
+  obtain ⟨h0, hi0⟩ := HInv0_fresh dir cfg hcfg
+  obtain ⟨h1, h2⟩ := hrun_ok dir h (σ := ⟨specEmpty, .none⟩) hi0.toQ hok hwf hrunok
   exact ⟨h0, h1, HInv_agree h2⟩
 
 end XixiKV.C01H
